@@ -1,2 +1,8 @@
-#!/bin/sh
+#!/bin/bash
+# MANIFEST.setup_cmd: builds the harness offline (all profiles used by quick checks).
+ROOT="$(cd "$(dirname "${BASH_SOURCE[0]}")" && pwd)"
+export CARGO_NET_OFFLINE=true
+cd "$ROOT/harness" || exit 2
+FLAGS="--cfg poulpy_verif -C target-feature=+avx2,+fma"
+RUSTFLAGS="$FLAGS" cargo build --profile checked --target-dir target-checked --workspace || exit 2
 exit 0
